@@ -218,7 +218,13 @@ class Script:
                         return False
                     # hashes match! now add the RedeemScript
                     stream = BytesIO(redeem_script)
-                    commands.extend(Script.parse(stream).commands)
+                    redeem_commands = Script.parse(stream).commands
+                    # BIP141: a P2SH-wrapped witness program has to be the only
+                    # element of the ScriptSig
+                    if len(stack) > 0 and Script(redeem_commands).is_witness_script():
+                        print("P2SH witness program with extra ScriptSig items")
+                        return False
+                    commands.extend(redeem_commands)
                 # witness program version 0 rule. if stack commands are:
                 # 0 <20 byte hash> this is p2wpkh
                 if len(stack) == 2 and stack[0] == b"" and len(stack[1]) == 20:
